@@ -2,6 +2,8 @@
 
 package hclwrite
 
+import "fmt"
+
 // Read-only exports used by the external verification harness (build tag
 // "verif"). With the tag off this file is not compiled.
 
@@ -44,4 +46,51 @@ func VerifLinesForFormat(tokens Tokens) []VerifLine {
 // (hclsyntax tokens converted to writer tokens with SpacesBefore).
 func VerifLexConfig(src []byte) Tokens {
 	return lexConfig(src)
+}
+
+// VerifDumpTree renders the shape of a file's node tree: every structured
+// node as "(tag ...)" and every run of leaf tokens as its length.
+func VerifDumpTree(f *File) string {
+	return "(file" + verifDumpChildren(f.children) + ")"
+}
+
+func verifDumpChildren(ns *nodes) string {
+	ret := ""
+	pending := 0
+	flush := func() {
+		if pending > 0 {
+			ret += fmt.Sprintf(" %d", pending)
+			pending = 0
+		}
+	}
+	for n := ns.first; n != nil; n = n.after {
+		tag := ""
+		var kids *nodes
+		switch c := n.content.(type) {
+		case *Body:
+			tag, kids = "body", c.children
+		case *Attribute:
+			tag, kids = "attr", c.children
+		case *Block:
+			tag, kids = "block", c.children
+		case *blockLabels:
+			tag, kids = "labels", c.children
+		case *Expression:
+			tag, kids = "expr", c.children
+		case *Traversal:
+			tag, kids = "traversal", c.children
+		case *TraverseName:
+			tag, kids = "name", c.children
+		case *TraverseIndex:
+			tag, kids = "index", c.children
+		}
+		if tag == "" {
+			pending += len(n.content.BuildTokens(nil))
+			continue
+		}
+		flush()
+		ret += " (" + tag + verifDumpChildren(kids) + ")"
+	}
+	flush()
+	return ret
 }
